@@ -89,23 +89,31 @@ struct Sim {
     flavor: Flavor,
     /// who must authorize `mint` (index), if anybody
     mint_auth: Option<usize>,
+    /// the host's max_entry_ttl of this sequence
+    max_ttl: u32,
 }
 
 impl Sim {
     fn new(min_temp: u32, start: u32) -> Sim {
-        let e = new_env(start, min_temp, MAX_TTL);
+        Self::new_ttl(min_temp, start, MAX_TTL)
+    }
+    fn new_ttl(min_temp: u32, start: u32, max_ttl: u32) -> Sim {
+        let e = new_env(start, min_temp, max_ttl);
         let tok = e.register(Tok, ());
         let mut u = Universe::new(&e, NA);
         assert_eq!(u.push(tok.clone()), SELF);
         let other = e.register(Tok, ());
         assert_eq!(u.push(other), OTHER);
-        Sim { e, u, tok, now: start, min_temp, flavor: Flavor::Base, mint_auth: None }
+        Sim { e, u, tok, now: start, min_temp, flavor: Flavor::Base, mint_auth: None, max_ttl }
     }
     /// One of the example contracts with all its gates open (everybody allowed, nobody
     /// blocked, not paused, cap = i128::MAX), so that it must behave exactly like `Base`.
     /// Returns the initial supply minted by the constructor to account 0.
     fn new_flavor(t: &mut Trace, flavor: Flavor, min_temp: u32, start: u32, initial: i128) -> Sim {
-        let e = new_env(start, min_temp, MAX_TTL);
+        Self::new_flavor_ttl(t, flavor, min_temp, start, initial, MAX_TTL)
+    }
+    fn new_flavor_ttl(t: &mut Trace, flavor: Flavor, min_temp: u32, start: u32, initial: i128, max_ttl: u32) -> Sim {
+        let e = new_env(start, min_temp, max_ttl);
         let mut u = Universe::new(&e, NA);
         let name = SString::from_str(&e, "T");
         let sym = SString::from_str(&e, "T");
@@ -128,7 +136,7 @@ impl Sim {
         assert_eq!(u.push(tok.clone()), SELF);
         let other = e.register(Tok, ());
         assert_eq!(u.push(other), OTHER);
-        let mut s = Sim { e, u, tok, now: start, min_temp, flavor, mint_auth };
+        let mut s = Sim { e, u, tok, now: start, min_temp, flavor, mint_auth, max_ttl };
         if flavor == Flavor::AllowList {
             for i in 0..N {
                 let r = call(&s.e, &s.tok, "allow_user", args(&s.e, [v(&s.e, s.u.a(i)), v(&s.e, s.u.a(0))]), &[s.u.a(0)]);
@@ -152,27 +160,38 @@ impl Sim {
             Flavor::Votes | Flavor::Capped => !matches!(kind, "burn" | "burn_from"),
         }
     }
+    /// getters; a getter that traps is shown as `?` (the monitor then flags the observation)
+    fn bal_opt(&self, i: usize) -> Option<i128> {
+        query(&self.e, &self.tok, "balance", args(&self.e, [v(&self.e, self.u.a(i))]))
+    }
     fn bal(&self, i: usize) -> i128 {
-        query(&self.e, &self.tok, "balance", args(&self.e, [v(&self.e, self.u.a(i))])).unwrap()
+        self.bal_opt(i).unwrap_or(0)
+    }
+    fn allowance_opt(&self, o: usize, s: usize) -> Option<i128> {
+        query(&self.e, &self.tok, "allowance", args(&self.e, [v(&self.e, self.u.a(o)), v(&self.e, self.u.a(s))]))
     }
     fn allowance(&self, o: usize, s: usize) -> i128 {
-        query(&self.e, &self.tok, "allowance", args(&self.e, [v(&self.e, self.u.a(o)), v(&self.e, self.u.a(s))])).unwrap()
+        self.allowance_opt(o, s).unwrap_or(0)
+    }
+    fn supply_opt(&self) -> Option<i128> {
+        query(&self.e, &self.tok, "total_supply", args(&self.e, []))
     }
     fn supply(&self) -> i128 {
-        query(&self.e, &self.tok, "total_supply", args(&self.e, [])).unwrap()
+        self.supply_opt().unwrap_or(0)
     }
     fn state(&self) -> String {
-        let bals: Vec<i128> = (0..N).map(|i| self.bal(i)).collect();
+        let sh = |x: Option<i128>| x.map(|v| v.to_string()).unwrap_or_else(|| "?".to_string());
+        let bals: Vec<String> = (0..N).map(|i| sh(self.bal_opt(i))).collect();
         let mut al = vec![];
         for o in 0..N {
             for s in 0..N {
-                let a = self.allowance(o, s);
-                if a != 0 {
-                    al.push(format!("{}:{}:{}", o, s, a));
+                match self.allowance_opt(o, s) {
+                    Some(0) => {}
+                    a => al.push(format!("{}:{}:{}", o, s, sh(a))),
                 }
             }
         }
-        format!("sup={} bal={} allow={}", self.supply(), join(&bals), if al.is_empty() { "-".into() } else { al.join(";") })
+        format!("sup={} bal={} allow={}", sh(self.supply_opt()), bals.join(","), if al.is_empty() { "-".into() } else { al.join(";") })
     }
     fn events(&self) -> String {
         let evs = last_events(&self.e);
@@ -238,7 +257,7 @@ impl Sim {
     }
     fn advance(&mut self, t: &mut Trace, n: u32) {
         self.now += n;
-        set_ledger(&self.e, self.now, self.min_temp, MAX_TTL);
+        set_ledger(&self.e, self.now, self.min_temp, self.max_ttl);
         t.op(&format!("fungible advance n={}", n));
         let st = self.state();
         t.obs(&format!("ok {} now={} ev=- dem=-", st, self.now));
@@ -402,6 +421,72 @@ fn scenario_directed(t: &mut Trace) {
     s.exec(t, "transfer_from", &[1, 0, 2], 1, 0, &[1]);
     scenario_c02(t);
     scenario_special(t);
+    scenario_long_idle(t);
+}
+
+/// Long idle periods with NO access in between (one-year max_entry_ttl for these sequences
+/// only): holder balances are persistent and must not move across a gap; allowances are
+/// temporary and must be usable up to and including their live_until_ledger (40 / 90 / 200
+/// days ahead), worth zero after it, also when live_until falls inside a gap.
+fn scenario_long_idle(t: &mut Trace) {
+    const DAY: u32 = 17_280;
+    const YEAR_TTL: u32 = 6_312_000;
+    const START: u32 = 100;
+    for flavor in [Flavor::Base, Flavor::Votes, Flavor::Capped] {
+        seq(t, &format!("directed long idle min_temp=16 start={} max_ttl={} flavor={:?}", START, YEAR_TTL, flavor));
+        let mut s = if flavor == Flavor::Base { Sim::new_ttl(16, START, YEAR_TTL) } else { Sim::new_flavor_ttl(t, flavor, 16, START, 0, YEAR_TTL) };
+        let ma: Vec<usize> = s.mint_auth.into_iter().collect();
+        s.exec(t, "mint", &[0], 1000, 0, &ma);
+        s.exec(t, "mint", &[1], 50, 0, &ma);
+        s.exec(t, "mint", &[SELF], 77, 0, &ma);
+        s.exec(t, "mint", &[OTHER], 40, 0, &ma);
+        s.exec(t, "transfer", &[0, 2], 300, 0, &[0]);
+        s.exec(t, "approve", &[0, 3], 200, START + 40 * DAY, &[0]);
+        s.exec(t, "approve", &[0, 4], 300, START + 90 * DAY, &[0]);
+        s.exec(t, "approve", &[2, 3], 150, START + 200 * DAY, &[2]);
+        s.exec(t, "approve", &[OTHER, 3], 40, START + 200 * DAY, &[OTHER]);
+        s.exec(t, "approve", &[2, 1], 70, 150, &[2]); // expires inside the first gap
+        s.exec(t, "approve", &[1, 4], 50, START + 20 * DAY, &[1]); // expires inside the 31-day gap
+        s.exec(t, "approve", &[0, 1], 5, START + YEAR_TTL, &[0]); // one beyond the maximum: rejected
+        s.exec(t, "approve", &[1, 0], 5, START + YEAR_TTL - 1, &[1]); // the maximum: accepted
+        // 1 day idle
+        s.advance(t, DAY);
+        s.exec(t, "transfer_from", &[3, 0, 4], 20, 0, &[3]);
+        s.exec(t, "transfer_from", &[1, 2, 4], 1, 0, &[1]);
+        // 31 days idle
+        s.advance(t, 31 * DAY);
+        s.exec(t, "transfer_from", &[4, 1, 0], 10, 0, &[4]); // (1,4) expired on day 20
+        s.exec(t, "transfer_from", &[3, 0, 4], 20, 0, &[3]); // 40-day allowance untouched for 31 days
+        s.exec(t, "transfer_from", &[4, 0, 1], 100, 0, &[4]); // 90-day allowance never touched so far
+        s.exec(t, "transfer", &[1, 4], 50, 0, &[1]); // a balance not accessed for 32 days
+        s.exec(t, "transfer", &[SELF, 1], 1, 0, &[]); // contract-held tokens stay put
+        // to exactly live_until of the 40-day allowance, then one past it
+        s.advance(t, 8 * DAY);
+        s.exec(t, "transfer_from", &[3, 0, 4], 20, 0, &[3]);
+        s.advance(t, 1);
+        s.exec(t, "transfer_from", &[3, 0, 4], 20, 0, &[3]);
+        // 100 days idle: the 90-day allowance's live_until falls inside the gap
+        s.advance(t, 100 * DAY);
+        s.exec(t, "transfer_from", &[4, 0, 1], 100, 0, &[4]);
+        s.exec(t, "transfer_from", &[3, 2, 4], 50, 0, &[3]); // 200-day allowance, first access on day 140
+        s.exec(t, "transfer_from", &[3, OTHER, 4], 15, 0, &[3]);
+        s.exec(t, "transfer", &[2, 0], 100, 0, &[2]);
+        s.exec(t, "transfer", &[OTHER, 0], 5, 0, &[OTHER]);
+        // to exactly live_until of the 200-day allowances, then one past it
+        s.advance(t, 60 * DAY - 1);
+        s.exec(t, "transfer_from", &[3, 2, 4], 60, 0, &[3]);
+        s.exec(t, "transfer_from", &[3, OTHER, 4], 20, 0, &[3]);
+        s.advance(t, 1);
+        s.exec(t, "transfer_from", &[3, 2, 4], 40, 0, &[3]);
+        s.exec(t, "transfer_from", &[3, OTHER, 4], 5, 0, &[3]);
+        s.exec(t, "transfer_from", &[3, 2, 4], 0, 0, &[3]);
+        // balances after 200 idle days are all still spendable by their holders
+        s.exec(t, "transfer", &[0, 1], 1, 0, &[0]);
+        s.exec(t, "transfer", &[4, 1], 1, 0, &[4]);
+        s.exec(t, "mint", &[3], 5, 0, &ma);
+        s.exec(t, "transfer", &[3, 1], 5, 0, &[3]);
+        s.exec(t, "transfer", &[3, 1], 1, 0, &[3]);
+    }
 }
 
 /// "special" principals: the token contract's own address as holder / owner / spender / to,
